@@ -132,6 +132,10 @@ def _extract_interaction_log(
 def _extract_spans(activated_rails: List[ActivatedRail]) -> List[Span]:
     """Extract a simplified span view from the log of activated rails."""
     spans = []
+    if not activated_rails:
+        # No rail was activated, e.g. when only rails that are not configured were selected
+        return spans
+
     ref_time = activated_rails[0].started_at
     interaction_span = Span(
         span_id=new_uuid(),
